@@ -22,7 +22,7 @@ def run(ctx):
         b = ctx.build('c10-' + mode, core.MODPATH + '/zzverif/c10', files, ldflags=ld, buildmode=bm, tags='verifcgo' if mode == 'external' else None)
         ch = ctx.child(b, run='TestC10$', timeout=600, env={'VERIF_C10_MODE': mode, 'VERIF_C10_NAMES': names}, label=mode)
         ctx.absorb(ch, what='TestC10[' + mode + ']')
-    bd = os.path.join(core.BUILD, 'bin', 'c10-default.test')
+    bd = os.path.join(core.BIN, 'c10-default.test')
     ctx.absorb(ctx.child(bd, run='TestC10Concurrent', timeout=600, env={'VERIF_C10_MODE': 'default'}, label='concurrent'), what='TestC10Concurrent')
     if ctx.stats.get('functions_exact:default', 0) < 1000 or ctx.stats.get('variables_exact:default', 0) < 100:
         ctx.inconclusive.append('default link mode resolved too few symbols exactly')
